@@ -25,7 +25,7 @@ _PURE = {
     'left_shift', 'right_shift', 'bitwise_and', 'bitwise_or', 'bitwise_xor', 'packbits', 'unpackbits', 'power',
     'uint8', 'uint16', 'uint32', 'uint64', 'int8', 'int16', 'int32', 'int64', 'uint', 'int_', 'float64', 'bool_',
     'flatnonzero', 'searchsorted', 'multiply', 'subtract', 'divide', 'floor_divide', 'remainder', 'sign', 'square',
-    'vdot', 'inner', 'matmul', 'tensordot', 'einsum', 'trace', 'count_nonzero', 'intersect1d', 'in1d', 'isin', 'bincount',
+    'log', 'exp', 'sqrt', 'log2', 'log10', 'log1p', 'vdot', 'inner', 'matmul', 'tensordot', 'einsum', 'trace', 'count_nonzero', 'intersect1d', 'in1d', 'isin', 'bincount',
     'atleast_1d', 'select', 'choose', 'clip', 'logical_and', 'not_equal', 'equal', 'greater', 'less',
 }
 
@@ -250,6 +250,33 @@ class MiniCSR:
             self.a = self.a % value.mod
             canon = MiniCSR(self.a).entries()
             self.store = None if ent == canon else ent
+            return
+        if name == 'indices' and self.a.shape[0] == 1 and isinstance(value, np.ndarray) and value.dtype != object:
+            # direct assignment of the column indices of a row matrix (bsparse.insert_mod2): the row now stores
+            # exactly these columns, in this order; the values follow with the `.data` assignment (ones until then)
+            cols = [int(c) for c in value.tolist()]
+            if any(c < 0 or c >= self.a.shape[1] for c in cols) or len(set(cols)) != len(cols):
+                raise AttributeError('indices out of range / duplicated')
+            a = np.zeros(self.a.shape, dtype=int)
+            for c in cols:
+                a[0, c] = 1
+            self.a = a
+            self.store = [(0, c) for c in cols]
+            if self.store == MiniCSR(self.a).entries():
+                self.store = None
+            return
+        if name == 'data' and self.a.shape[0] == 1 and isinstance(value, np.ndarray):
+            ent = self.entries()
+            if len(value) != len(ent):
+                raise AttributeError('data length differs from the number of stored entries')
+            store = list(ent)
+            for (r_, c_), v_ in zip(ent, value.tolist()):
+                self.a[r_, c_] = v_
+            self.store = None if store == MiniCSR(self.a).entries() else store
+            return
+        if name == 'indptr' and self.a.shape[0] == 1 and isinstance(value, np.ndarray):
+            if [int(x) for x in value.tolist()] != [0, len(self.entries())]:
+                raise AttributeError('indptr inconsistent with the stored entries')
             return
         raise AttributeError(name)
 
